@@ -5,6 +5,7 @@ go 1.23
 require (
 	github.com/gorilla/websocket v1.5.1
 	golang.org/x/sys v0.14.0
+	modernc.org/sqlite v1.27.0
 	shanhu.io/g v0.0.0
 )
 
@@ -19,7 +20,6 @@ require (
 	modernc.org/libc v1.32.0 // indirect
 	modernc.org/mathutil v1.6.0 // indirect
 	modernc.org/memory v1.7.2 // indirect
-	modernc.org/sqlite v1.27.0 // indirect
 )
 
 replace shanhu.io/g => /repo
